@@ -61,19 +61,24 @@ Record ledger := mkLedger {
   l_merkle : bytes;         (* merkle_tree.db hash file *)
   l_height : N;             (* currBlockHeight *)
   l_hash : bytes;           (* currBlockHash *)
-  l_gas : gastable          (* neovm.GAS_TABLE: process global, refreshed only by executed blocks *)
+  l_gas : gastable;         (* neovm.GAS_TABLE: process global, refreshed only by executed blocks *)
+  l_pending : list memdb    (* write sets of executed, not yet submitted blocks: ExecuteResult.WriteSet is the
+                               memdb of executeBlock's overlay itself (GetWriteSet returns it, no copy), held by
+                               consensus between ExecuteBlock and SubmitBlock; most recent first *)
 }.
 
 Definition set_state (L : ledger) (p : pstore) : ledger :=
-  mkLedger p (l_block L) (l_event L) (l_merkle L) (l_height L) (l_hash L) (l_gas L).
+  mkLedger p (l_block L) (l_event L) (l_merkle L) (l_height L) (l_hash L) (l_gas L) (l_pending L).
 Definition set_event (L : ledger) (p : pstore) : ledger :=
-  mkLedger (l_state L) (l_block L) p (l_merkle L) (l_height L) (l_hash L) (l_gas L).
+  mkLedger (l_state L) (l_block L) p (l_merkle L) (l_height L) (l_hash L) (l_gas L) (l_pending L).
 Definition set_block (L : ledger) (p : pstore) : ledger :=
-  mkLedger (l_state L) p (l_event L) (l_merkle L) (l_height L) (l_hash L) (l_gas L).
+  mkLedger (l_state L) p (l_event L) (l_merkle L) (l_height L) (l_hash L) (l_gas L) (l_pending L).
 Definition set_current (L : ledger) (h : N) (hash : bytes) : ledger :=
-  mkLedger (l_state L) (l_block L) (l_event L) (l_merkle L) h hash (l_gas L).
+  mkLedger (l_state L) (l_block L) (l_event L) (l_merkle L) h hash (l_gas L) (l_pending L).
 Definition set_gas (L : ledger) (g : gastable) : ledger :=
-  mkLedger (l_state L) (l_block L) (l_event L) (l_merkle L) (l_height L) (l_hash L) g.
+  mkLedger (l_state L) (l_block L) (l_event L) (l_merkle L) (l_height L) (l_hash L) g (l_pending L).
+Definition set_pending (L : ledger) (w : list memdb) : ledger :=
+  mkLedger (l_state L) (l_block L) (l_event L) (l_merkle L) (l_height L) (l_hash L) (l_gas L) w.
 Definition set_state_data (L : ledger) (d : store) : ledger :=
   set_state L (mkPStore d (ps_batch (l_state L))).
 
@@ -327,6 +332,19 @@ Definition pre_execute_eip155_committing (L : ledger) (p : prog evm_res) : optio
                | None => None
                end
   | None => None
+  end.
+
+(** An overlay-recycling variant of StateStore.NewOverlayDB (a free list onto which executeBlock's
+    overlay is released although its memdb escaped as ExecuteResult.WriteSet): the session's
+    overlay IS the most recent pending write set, Reset first. Used only to show that the model
+    can express this violation: what the pre-execution commits from its cache into its overlay
+    replaces the pending block's write set, which SubmitBlock would then persist. *)
+Definition pre_execute_eip155_recycling (L : ledger) (p : prog evm_res) : outcome evm_res * ledger :=
+  let x := open_session L in                      (* the popped overlay after Reset: empty *)
+  let '(o, x') := run_prog p x in
+  match l_pending L with
+  | [] => (o, se_ledger x')
+  | _ :: rest => (o, set_pending (se_ledger x') (se_overlay x' :: rest))
   end.
 
 (** * The call alphabet of the entry points (tied to the source by Gen/PreExecGen.v) *)
